@@ -9,6 +9,10 @@ CHECKS = {
    text="TLC enumerates every program of spec/Gen.tla up to a node budget (control, effect and loop alphabets); each is replayed into PyTeal, compiled at versions 2..10, and TLC runs the emitted TEAL on spec/AVM.tla for every context of the recipe's domain, comparing verdict, return value, logs, state writes and inner transactions with spec/PyTealSem.tla (spec/Refine.tla). Exhaustive within the bounds, nothing beyond them.",
    note="trusts the AVM/PyTeal-semantics transcriptions (calibrated against the repository's golden programs), the tokenizer glue, TLC; hashes and ledger lookups are uninterpreted",
    tech="TLA+ refinement check (TLC): Builder-generated programs replayed into PyTeal, emitted TEAL executed on an AVM spec against a big-step source semantics"),
+ "C02": dict(cat="model_checking", ref="5 C02",
+   text="TLC enumerates programs with subroutines from spec/Gen.tla per routine-signature catalogue entry (self/mutual/three-cycle recursion guarded by a count-down parameter, by-value and by-reference parameters incl. forwarded references, none/uint64/bytes results, routine-private variables, calls in statement and operand position); each is compiled for versions 4..10 x frame pointers x slot optimisation and TLC runs every distinct text on spec/AVM.tla for recursion depths 0..3 against the call semantics of spec/PyTealSem.tla; AVM.tla additionally checks at every retsub that exactly the declared results lie above an unchanged caller stack.",
+   note="trusts callsub/retsub/proto/frame_dig/frame_bury semantics of AVM.tla; ABI-typed parameters are covered by the C06/C07/C09 checks, not here",
+   tech="TLA+ refinement check (TLC): Gen-enumerated recursive programs replayed into PyTeal, emitted TEAL executed on the AVM spec vs source call semantics + retsub ghost invariants"),
  "C16": dict(cat="model_checking", ref="5 C16",
    text="All 35 factor-count combinations of WideRatio are replayed into PyTeal; TLC runs the emitted TEAL on spec/AVM.tla against the big-number meaning of WideRatio in spec/PyTealSem.tla: on a scaled 4-bit-word machine over every factor tuple (small counts) and on the 64-bit machine over boundary values. Exact result or failure, compared by TLC per (program, context).",
    note="trusts BigNat.tla (self-tested against Python integers at setup), the mulw/divmodw/cover/uncover semantics of AVM.tla, soundness of the scaled machine for width-generic code",
